@@ -1086,4 +1086,127 @@ theorem reaches_basesOf {env : Env} {t : Tree} {look : Path → Option Module} (
   rw [this] at hl'; cases hl'
   exact ⟨l, hl, hp, hw⟩
 
+/-! ### every directory is inserted once -/
+
+theorem step_keys_nodup {t : Tree} {s s' : PState} (hn : s.mods.keys.Nodup) (hs : step t s = .next s') :
+    s'.mods.keys.Nodup := by
+  unfold step at hs
+  split at hs
+  · cases hs
+  · split at hs
+    · cases hs; exact hn
+    · rename_i hcont
+      split at hs
+      · cases hs
+      · cases hs
+        simp only [DirMap.keys, List.map_append, List.map_cons, List.map_nil]
+        refine List.nodup_append.2 ⟨hn, by simp, ?_⟩
+        intro a ha b hb
+        simp only [List.mem_singleton] at hb
+        subst hb
+        intro e
+        subst e
+        apply hcont
+        simp only [List.mem_map] at ha
+        obtain ⟨e, he, rfl⟩ := ha
+        exact contains_iff.2 ⟨e, he, rfl⟩
+
+theorem step_done_mods {t : Tree} {s : PState} {ms : DirMap} (hs : step t s = .done (.ok ms)) : ms = s.mods := by
+  unfold step at hs
+  split at hs
+  · cases hs; rfl
+  · split at hs
+    · cases hs
+    · split at hs <;> cases hs
+
+theorem run_keys_nodup {t : Tree} : ∀ (n : Nat) (s : PState) (ms : DirMap), s.mods.keys.Nodup →
+    run t n s = some (.ok ms) → ms.keys.Nodup := by
+  intro n
+  induction n with
+  | zero => intro s ms _ h; simp [run] at h
+  | succ n ih =>
+    intro s ms hn h
+    unfold run at h
+    split at h
+    · rename_i r hs
+      cases h
+      rw [step_done_mods hs]; exact hn
+    · rename_i s' hs
+      exact ih s' ms (step_keys_nodup hn hs) h
+
+/-- the number of directories read (`read_dir` calls that succeed) up to the end of the work-list: one per
+    iteration that takes the "not yet visited" branch -/
+def readsOf (t : Tree) : Nat → PState → Nat
+  | 0, _ => 0
+  | n + 1, s =>
+    match step t s with
+    | .done _ => 0
+    | .next s' => (if s'.mods.length = s.mods.length then 0 else 1) + readsOf t n s'
+
+theorem step_mods_length {t : Tree} {s s' : PState} (hs : step t s = .next s') :
+    s'.mods.length = s.mods.length ∨ s'.mods.length = s.mods.length + 1 := by
+  unfold step at hs
+  split at hs
+  · cases hs
+  · split at hs
+    · cases hs; exact .inl rfl
+    · split at hs
+      · cases hs
+      · cases hs; exact .inr (by simp)
+
+theorem run_reads {t : Tree} : ∀ (n : Nat) (s : PState) (ms : DirMap),
+    run t n s = some (.ok ms) → s.mods.length + readsOf t n s = ms.length := by
+  intro n
+  induction n with
+  | zero => intro s ms h; simp [run] at h
+  | succ n ih =>
+    intro s ms h
+    unfold run at h
+    unfold readsOf
+    split at h
+    · rename_i r hs
+      cases h
+      rw [hs, step_done_mods hs]; rfl
+    · rename_i s' hs
+      rw [hs]
+      have := ih s' ms h
+      rcases step_mods_length hs with e | e
+      · simp only [e, if_true] at this ⊢; omega
+      · have hne : ¬ s'.mods.length = s.mods.length := by omega
+        simp only [hne, if_false]; omega
+
+/-! ### spellings of one path -/
+
+theorem walk_append (t : Tree) : ∀ (a : List String) (p : Path) (b : List String),
+    walk t p (a ++ b) = (walk t p a).bind fun q => walk t q b := by
+  intro a
+  induction a with
+  | nil => intro p b; simp [walk]
+  | cons seg rest ih =>
+    intro p b
+    simp only [List.cons_append, walk]
+    split
+    · exact ih _ _
+    · split
+      · exact ih _ _
+      · split
+        · exact ih _ _
+        · rfl
+
+theorem walk_skip (t : Tree) (p : Path) (seg : String) (h : seg = "." ∨ seg = "") (rest : List String) :
+    walk t p (seg :: rest) = walk t p rest := by
+  simp [walk, h]
+
+theorem walk_insert (t : Tree) (p : Path) (a b : List String) (seg : String) (h : seg = "." ∨ seg = "") :
+    walk t p (a ++ seg :: b) = walk t p (a ++ b) := by
+  rw [walk_append, walk_append]
+  congr 1
+  funext q
+  exact walk_skip t q seg h b
+
+theorem walk_down_up (t : Tree) (p : Path) (n : String) (rest : List String) (hn : n ≠ "." ∧ n ≠ "" ∧ n ≠ "..")
+    (hd : isDir t (p ++ [n]) = true) : walk t p (n :: ".." :: rest) = walk t p rest := by
+  have h1 : ¬ (n = "." ∨ n = "") := by rintro (h | h) <;> simp_all
+  simp [walk, h1, hn.2.2, hd]
+
 end QV.Proofs.QmlDir
